@@ -394,6 +394,21 @@ class TypeEnv:
                     at = self.expr_type(fn, a, env)
                     self._bind(fn, tg, at.elem if at else None, None, env)
                 return
+        if isinstance(target, (ast.Tuple, ast.List)) and all(isinstance(x, ast.Name) for x in target.elts) and isinstance(it, (ast.Name, ast.Attribute)):
+            # rows of a constant table (`for infinity, text in self._OUT_OF_RANGE`): the type of each column
+            try:
+                loc = {"self": Instance(fn.cls)} if fn.cls is not None else {}
+                rows = self.folder.eval(it, Scope(self.folder, fn.module, fn.cls, loc))
+            except Exception:  # noqa: BLE001
+                rows = None
+            if isinstance(rows, (tuple, list)) and rows and all(isinstance(r, (tuple, list)) and len(r) == len(target.elts) for r in rows):
+                for k, tg in enumerate(target.elts):
+                    col: Optional[Ty] = None
+                    for i, r in enumerate(rows):
+                        tv = self.value_type(r[k])
+                        col = tv if i == 0 else (join(col, tv) if (col and tv) else None)
+                    self._set(env, tg.id, col)  # type: ignore[attr-defined]
+                return
         t = self.expr_type(fn, it, env)
         elem = t.elem if t else None
         if isinstance(target, ast.Name):
@@ -472,6 +487,17 @@ class TypeEnv:
                             t = self.field_type(cls, e.attr)
                 elif n.startswith("ext:"):
                     t = ty(f"ext:{n[4:]}.{e.attr}")
+                elif n.startswith("super:"):
+                    # `super().method`: the method of the next class of the MRO that defines it
+                    cur = self.repo.classes.get(n[6:])
+                    if cur is not None:
+                        mro = list(self.repo.mro(cur))
+                        for q in mro[mro.index(cur.qualname) + 1:] if cur.qualname in mro else []:
+                            info = self.repo.classes.get(q)
+                            if info is not None and e.attr in info.methods:
+                                m = info.methods[e.attr]
+                                t = Ty(frozenset({"func:" + m.qualname}), ret=self.ann(m.module, m.node.returns, info))
+                                break
                 else:
                     cls = self.repo.classes.get(n)
                     if cls is not None:
